@@ -249,6 +249,8 @@ type Stage struct {
 	BootedAt   time.Duration
 	OnBooted   func(s *Stage) // called in the boot task once objects exist, before actors start
 	EndReason  string
+	// HarnessDriven: a harness task started in OnBooted ends the run itself.
+	HarnessDriven bool
 	CancelledT time.Duration
 }
 
@@ -386,7 +388,7 @@ func (s *Stage) boot() {
 			s.spawn("ctl:"+f.ID, f.StartDelay.D(), func() error { return ctl.Run(s.Ctx) })
 		}
 	}
-	if s.ActorsLeft() == 0 {
+	if s.ActorsLeft() == 0 && !s.HarnessDriven {
 		s.K.Stop()
 	}
 }
